@@ -43,6 +43,10 @@ def generate(rng, tier):
     yield build({"start": "et", "et": 0x0806, "data": hx(arp), "notes": ["F9"]})
     ms = bytes.fromhex("0014000000010800") + bytes(5)
     yield build({"start": "et", "et": 0x88E5, "data": hx(ms), "notes": ["F12"]})
+    # the witnesses of Props/C07.lean `full_statement_false_arp` / `_macsec`, replayed on the crate
+    yield build({"start": "et", "et": 0x0806, "data": "0001080006040001", "notes": ["F9-lean-witness"]})
+    yield build({"start": "et", "et": 0x88E5,
+                 "data": "202800000001010203040506070800010203040506070809", "notes": ["F12-lean-witness"]})
 
 
 def is_trivial(c):
